@@ -11,7 +11,6 @@
      2  result differs from the Spec inside the proved domain                     -> "value"
      3  result is not a sparse array / not well-formed / wrong fill, values right -> "value"
      4  members with different fill values were not rejected with ValueError      -> "value"
-     5  model and Spec disagree inside the domain (would contradict a theorem)    -> "representation"
     1x  result differs from the Spec outside the domain; x names the failed clause (see each judge) *)
 From Coq Require Import ZArith List Bool.
 From Verif Require Import Py PyExt Shape COO GCXS NpJoin G_join S_join Join Extract Judge SArr.
@@ -75,7 +74,7 @@ Definition decide (dom : bool) (clause : Z) (model_ok : bool) (spec : option (da
   | Some s =>
     if values_ok r s then
       if form_ok r fill then (if model_ok then 0 else 1) else (if dom then 3 else clause)
-    else if dom then (if model_ok then 5 else 2) else clause
+    else if dom then 2 else clause
   end.
 
 (* ------------------------------------------------------------------ concatenate / stack
@@ -139,26 +138,6 @@ Definition judge_join (c : join_case) : Z :=
         else if (op =? 1) && (length (c_shape a) =? 0)%nat && negb (forallb is_coo members) then 19
         else 0 in
       decide (clause =? 0) clause model_ok spec (c_fill a) r
-  end.
-
-(* branch tag of a join case: 0 COO joiner sorted flag true, 1 COO joiner constructor sorts,
-   2 GCXS joiner, 3 mixed fills, 4 axis rejected by the Spec *)
-Definition tag_join (c : join_case) : Z :=
-  let '(op, axis, caxes, members, r) := c in
-  match all_some (map member_coo members) with
-  | Some (a :: rest) =>
-    if negb (forallb (fun x => c_fill a =? c_fill x) (a :: rest)) then 3 else
-    match join_spec op axis a rest with
-    | None => 4
-    | Some _ =>
-      if forallb is_gcxs members && negb (length (c_shape a) =? 1)%nat then 2 else
-      match axis with
-      | None => 0
-      | Some ax => let nd := Z.of_nat (length (c_shape a)) + op in
-                   if (ax =? 0) || (ax =? - nd) then 0 else 1
-      end
-    end
-  | _ => 9
   end.
 
 (* ------------------------------------------------------------------ kernel level: the indptr splice
